@@ -10,6 +10,7 @@ Not covered by a theorem (assumed): the Go runtime and the standard library func
 in DESIGN.md section 3, and stack depth for pathological `msg=msg=…` nesting.
 -/
 import LA.Proofs.Auparse
+import LA.Proofs.StateFacts
 
 namespace LA.Auparse
 open LA
@@ -118,3 +119,9 @@ example : parse 1307 (ofString "audit(1.000:2): cwd=\"/\"") =
     Res.ok ⟨1307, 1, 0, 2, ofString "audit(1.000:2): cwd=\"/\"", 1⟩ := by decide +kernel
 
 end LA.Auparse
+
+/-! ### the code keeps nothing between calls that the model does not have -/
+
+/-- Outside `init`, no function of package auparse writes a package-level variable, takes the address of one or calls a
+sync/atomic method on one (regenerated list, see LA.Proofs.StateFacts): the parser is a function of its argument. -/
+theorem C05_parser_keeps_nothing_between_calls : LA.StateFacts.ofPkg "auparse" = [] := by decide
